@@ -644,7 +644,7 @@ func RunC07(tier string) {
 		tk = append(tk, k)
 	}
 	sort.Strings(tk)
-	seqx.Finish(run, total, smp, fmt.Sprintf("states: quick = eight representative reached states (empty, associated, one session, two sessions on two peers, released slot, outstanding report request, queued packets, re-used SEID); thorough = all histories of Assoc/Est/Del/Report/Push on two peers to depth %d; per state: 14 base datagrams x (every octet x 7 replacement values, every truncation, extensions by 1..4, every structure-aware single mutation; thorough: pairs on two bases); each mutant sent twice through the real UDP socket and followed by a Heartbeat from another peer; drivers: model data plane and real gtp5g driver over the simulated kernel", map[string]int{"quick": 2, "thorough": 4}[tier]))
+	seqx.Finish(run, total, smp, fmt.Sprintf("states: quick = eight representative reached states (empty, associated, one session, two sessions on two peers, released slot, outstanding report request, queued packets, re-used SEID); thorough = all histories of Assoc/Est/Del/Report/Push on two peers to depth %d; per state: 15 base datagrams x (every octet x 7 (quick 3) replacement values, every truncation, extensions by 1..4, every structure-aware single mutation; thorough: pairs on two bases); session-level mutants follow the swept session's current SEID across rebuilds of the state; each mutant sent twice (quick: single-octet replacements once) through the real UDP socket and followed by a Heartbeat from another peer; quick with the real driver leaves out the largest Modification base; drivers: model data plane and real gtp5g driver over the simulated kernel", map[string]int{"quick": 2, "thorough": 4}[tier]))
 	run.Assumption("the property's quantifier 'all byte strings' is decided for the stated finite mutation space only")
 	run.Assumption("a panic in a goroutine other than the loop/receiver kills the worker process and is reported by the explorer as a crash with its stack")
 	run.Finish()
